@@ -546,6 +546,11 @@ def run(ctx):
             if func.name == "set":
                 args[0].attrs["_data"][args[1]] = args[2]
                 return None
+            if func.name == "set_datatype":
+                args[0].attrs.setdefault("_datatype", {})[args[1]] = args[2]
+                return None
+            if func.name == "get_datatype":
+                return args[0].attrs.get("_datatype", {}).get(args[1], "i")
             return NotImplemented
 
         def method(self, ev, base, name, args, kwargs, node):
